@@ -20,7 +20,7 @@ RULE = ('codec: all 4x4 targets x 7 functions x last-packet flag x payload lengt
 ASSUMPTIONS = ['TCP framing: u16 little-endian length of the CPX wire data, then the wire data (2 header bytes + payload)',
                'UART framing: 0xFF, length, wire data, XOR checksum; 0xFF 0x00 is the clear-to-send acknowledgement',
                'receiver queues exist before packets arrive (the router drops packets for functions nobody asked for yet)']
-REQUIRED = ['mon.router_transactions_on_a_function_with_packets_waiting', 'mon.codec', 'mon.bad_version', 'mon.short_streams_all_cuts', 'mon.long_streams', 'mon.router_packets',
+REQUIRED = ['mon.router_streams_stalling_for_seconds_inside_a_frame', 'mon.router_transactions_on_a_function_with_packets_waiting', 'mon.codec', 'mon.bad_version', 'mon.short_streams_all_cuts', 'mon.long_streams', 'mon.router_packets',
             'mon.tcp_crtp_up', 'mon.tcp_crtp_down', 'mon.serial_crtp_up', 'mon.serial_crtp_down', 'mon.crtp_packet_objects_sent_again', 'mon.uart_cpx_packets_of_every_length', 'mon.frames_of_32k_and_more',
             'mon.router_streams_with_rejected_frames']
 EXHAUSTIVE = {'quick': False, 'thorough': False}
@@ -113,6 +113,19 @@ class ScriptSocket:
 
     def connect(self, addr):
         self.addr = addr
+
+    # socket options an implementation may set: the scripted chunks arrive without pauses, a time-out never expires
+    def settimeout(self, t):
+        self.timeout = t
+
+    def gettimeout(self):
+        return getattr(self, 'timeout', None)
+
+    def setblocking(self, flag):
+        pass
+
+    def setsockopt(self, *a):
+        pass
 
     def send(self, data):
         self.sent += bytes(data)
@@ -238,12 +251,16 @@ def run_long(desc, ctx):
 
 # ------------------------------------------------------------------------------------------ router / drivers under detsched
 class LiveSocket:
-    """Blocking in-memory socket for the threaded parts (virtual-time blocking through detsched)."""
+    """Blocking in-memory socket for the threaded parts (virtual-time blocking through detsched).  Pieces of the stream
+    may arrive after a pause; a receive time-out set with settimeout() is honoured (TimeoutError, the piece stays)."""
 
     def __init__(self):
         from vf import detsched as ds
         self.q = ds.Queue()
         self.buf = b''
+        self.pending = None
+        self.timeout = None
+        self.timeouts_raised = 0
         self.sent = bytearray()
         self.closed = False
         self.rnd = random.Random(1)
@@ -251,21 +268,55 @@ class LiveSocket:
     def connect(self, addr):
         pass
 
-    def feed(self, data, cuts=None):
+    def settimeout(self, t):
+        self.timeout = t
+
+    def gettimeout(self):
+        return self.timeout
+
+    def setblocking(self, flag):
+        self.timeout = None if flag else 0.0
+
+    def setsockopt(self, *a):
+        pass
+
+    def feed(self, data, cuts=None, pauses=None):
+        """pauses: {cut position: seconds that pass before the piece starting there arrives}"""
         data = bytes(data)
         pos = 0
         for c in (cuts or []) + [len(data)]:
             if c > pos:
-                self.q.put(data[pos:c])
+                self.q.put(((pauses or {}).get(pos, 0.0), data[pos:c]))
                 pos = c
 
     def send(self, data):
         self.sent += bytes(data)
         return len(data)
 
+    def sendall(self, data):
+        self.sent += bytes(data)
+
     def recv(self, n):
+        import queue as _q
+        from vf import detsched as ds
         if not self.buf:
-            self.buf = self.q.get()
+            if self.pending is None:
+                try:
+                    self.pending = self.q.get() if self.timeout is None else self.q.get(timeout=self.timeout)
+                except _q.Empty:
+                    self.timeouts_raised += 1
+                    raise TimeoutError('timed out')
+            pause, data = self.pending
+            sch = ds.CUR
+            if pause > 0 and sch is not None:
+                if self.timeout is not None and pause > self.timeout:
+                    sch.sleep(self.timeout)
+                    self.pending = (pause - self.timeout, data)
+                    self.timeouts_raised += 1
+                    raise TimeoutError('timed out')
+                sch.sleep(pause)
+            self.pending = None
+            self.buf = data
         out, self.buf = self.buf[:n], self.buf[n:]
         return out
 
@@ -316,7 +367,13 @@ def run_router(desc, ctx):
                         c.receivePacket(cpx.CPXFunction(f), timeout=0.001)
                     except Exception:
                         pass
-                sock.feed(s, cuts)
+                pauses = {}
+                if desc['seed'] % 4 == 3:
+                    # the stream stalls for seconds in the middle of frames (a busy WiFi link): fragmentation in time
+                    for cut in rnd.sample(cuts, min(len(cuts), 3)):
+                        pauses[cut] = rnd.uniform(1.2, 3.0)
+                    ob['stalls'] = len(pauses)
+                sock.feed(s, cuts, pauses)
                 import threading
 
                 transactor = min(listen) if desc['seed'] % 3 != 1 else None
@@ -353,8 +410,8 @@ def run_router(desc, ctx):
     _, abort, sch = harness.sched_case(fn, seed=desc['seed'], policy='random', line_p=harness.line_p_for(desc['seed'], 4, 0.15), horizon=500.0, max_steps=12_000_000)
     ctx.count('mon.statement_level_preemption_points', sch.line_points)
     ctx.evals()
-    if abort is not None or ob['err']:
-        ctx.violate('cpx:router-hang-or-error', {'abort': str(abort), 'error': ob['err']})
+    if abort is not None or ob['err'] or sch.deaths:
+        ctx.violate('cpx:router-hang-or-error', {'abort': str(abort), 'error': ob['err'], 'thread_deaths': [(d[0], d[1], d[2][-600:]) for d in sch.deaths][:2]})
         return
     for f in listen:
         want = [tuple(p) for p in pk if p[2] == f]
@@ -364,6 +421,7 @@ def run_router(desc, ctx):
                         {'function': f, 'want': len(want), 'got': len(ob['got'][f]),
                          'first_mismatch': next((i for i, (g, w) in enumerate(zip(ob['got'][f], want)) if g != w), None)})
     ctx.count('mon.router_transactions_on_a_function_with_packets_waiting', ob.get('transactions', 0))
+    ctx.count('mon.router_streams_stalling_for_seconds_inside_a_frame', ob.get('stalls', 0))
     ctx.nontrivial(('router', core.h64(s), tuple(sorted(listen))))
     ctx.sample({'router_packets': len(pk), 'listening_functions': sorted(listen), 'functions_in_stream': funcs})
 
